@@ -662,11 +662,22 @@ Proof.
       rewrite <- app_assoc; reflexivity.
 Qed.
 
+Definition rkeys (s : rstate) : list N := rev (sort_desc (akeys (r_hashes s))).
+
+Lemma rkeys_perm s : Permutation (akeys (r_hashes s)) (rkeys s).
+Proof. unfold rkeys. eapply Permutation_trans; [apply sort_desc_perm_self|apply Permutation_rev]. Qed.
+
+Lemma rkeys_In s id : In id (rkeys s) <-> In id (akeys (r_hashes s)).
+Proof.
+  split; intros H; [eapply Permutation_in; [apply Permutation_sym, rkeys_perm|exact H]|
+                    eapply Permutation_in; [apply rkeys_perm|exact H]].
+Qed.
+
 Lemma redis_load_run s now :
   run rexec (redis_prog (OLoad now)) s =
-  (s, RLoad (map (fun id => (odef now (h_ts (hget s id)), id)) (akeys (r_hashes s)))).
+  (s, RLoad (map (fun id => (odef now (h_ts (hget s id)), id)) (rkeys s))).
 Proof.
-  cbn [redis_prog run rexec]. rewrite r_load_loop_run; [reflexivity|].
+  cbn [redis_prog run rexec]. unfold rkeys. rewrite r_load_loop_run; [reflexivity|].
   destruct (r_queue s); repeat constructor.
 Qed.
 
@@ -689,14 +700,15 @@ Proof.
   assert (Hdis : forall id, rlookup r id <> None -> alookup N.eqb orph id = None).
   { intros id Hl. destruct (rlookup r id) as [en|] eqn:E; [|congruence]. eapply live_not_orphan; eassumption. }
   apply NoDup_Permutation.
-  - apply (NoDup_map_inv snd). rewrite map_map. cbn [snd]. rewrite map_id. apply (rr_nodup orph s r H).
+  - apply (NoDup_map_inv snd). rewrite map_map. cbn [snd]. rewrite map_id.
+    eapply Permutation_NoDup; [apply rkeys_perm|apply (rr_nodup orph s r H)].
   - apply (NoDup_map_inv snd). rewrite map_app, !map_map. cbn [snd].
     apply NoDup_app_intro; [apply (rr_ref orph s r H)|apply (rr_orph orph s r H)|].
     intros id H1 H2. change (In id (akeys r)) in H1. change (In id (akeys orph)) in H2.
     apply nget_keys in H1. apply nget_keys in H2. apply H2. apply Hdis. exact H1.
   - intros [t id]. rewrite in_app_iff, !in_map_iff.
     pose proof (rr_rep orph s r H id) as Hr. unfold redis_rep, rlookup in Hr. split.
-    + intros (k & E & Hin). inversion E; subst k t. change (In id (akeys (r_hashes s))) in Hin. apply nget_keys in Hin.
+    + intros (k & E & Hin). inversion E; subst k t. apply rkeys_In in Hin. apply nget_keys in Hin.
       destruct (alookup N.eqb r id) as [en|] eqn:Er.
       * left. destruct Hr as (_ & e & ts0 & att & dl & Hh & Ha). exists (id, en). split; [|apply nget_In; exact Er].
         cbn [fst snd]. unfold hget. rewrite Hh. cbn [h_ts odef].
@@ -708,14 +720,14 @@ Proof.
       * pose proof (nIn_get _ _ _ _ (rr_ref orph s r H) Hin) as Er. rewrite Er in Hr.
         destruct Hr as (_ & e & ts0 & att & dl & Hh & Ha). exists id. split.
         -- unfold hget. rewrite Hh. cbn [h_ts odef]. destruct (accum_entry_fields _ _ _ _ _ Ha) as [-> _]. reflexivity.
-        -- change (In id (akeys (r_hashes s))). apply nget_keys. congruence.
+        -- apply rkeys_In. apply nget_keys. congruence.
       * pose proof (nIn_get _ _ _ _ (rr_orph orph s r H) Hin) as Eo.
         assert (Er : alookup N.eqb r id = None).
         { destruct (alookup N.eqb r id) as [en|] eqn:Er; [|reflexivity].
           rewrite (Hdis id) in Eo; [discriminate|unfold rlookup; congruence]. }
         rewrite Er, Eo in Hr. cbn [option_map] in Hr. exists id. split.
         -- unfold hget. rewrite Hr. reflexivity.
-        -- change (In id (akeys (r_hashes s))). apply nget_keys. congruence.
+        -- apply rkeys_In. apply nget_keys. congruence.
 Qed.
 
 (* get() of a half-written entry: the envelope with attempts 0 *)
